@@ -30,6 +30,7 @@ type PropConfig struct {
 	Lemmas     []string       `json:"lemmas"`
 	JSONSweep  bool           `json:"jsonable_sweep"`
 	Confine    *ConfineConfig `json:"confine"`
+	GoSweep    *GoSweepConfig `json:"go_sweep"`
 	PathAxioms map[string]int `json:"path_axioms"` // tier -> maximum number of path components
 	// returns that are unreachable under the contracts' assumptions, each reviewed and explained; any
 	// other unreachable return is reported as a vacuity violation
@@ -189,6 +190,20 @@ func cmdCheck(args []string) {
 		all = append(all, &Obligation{ID: "assumed/path-axioms/bounded", Kind: "bounded", Func: "path/filepath (assumed contracts)", Pos: "contracts/assumed/stdlib.spec", Desc: desc,
 			Prefix: 1, Goal: goal, Script: []string{"(set-logic ALL)"}, Time: time.Since(t0).Seconds()})
 		cfg.Bounded = append(cfg.Bounded, fmt.Sprintf("path/filepath axioms A1..A5: bounded validation against the real library, paths of up to %d components (%d instances, %.1fs); not a proof", n, cnt, time.Since(t0).Seconds()))
+	}
+	if cfg.GoSweep != nil {
+		verified := map[string]bool{}
+		for _, t := range targets {
+			if t.sp != nil && t.sp.Checks["bounds"] && t.sp.Checks["nil"] && t.sp.Checks["panic"] {
+				verified[t.key] = true
+			}
+			if t.sp != nil && t.sp.Decreases != nil {
+				verified[t.key] = true
+			}
+		}
+		gs, notes := L.goSweep(cfg.GoSweep, verified)
+		all = append(all, gs...)
+		cfg.Assumes = append(cfg.Assumes, fmt.Sprintf("goroutine and recursion sweep (back end: go/ssa, structural): %d go statements / recursive functions in %s decided; trusted or reviewed: %s", len(gs), strings.Join(cfg.GoSweep.Packages, ", "), strings.Join(notes, "; ")))
 	}
 	if cfg.Confine != nil {
 		co, notes := L.confineSweep(cfg.Confine)
